@@ -96,8 +96,14 @@ impl CommandAcknowledgement {
 impl CommandAcknowledgementHandle {
     /// Marks the flag to indicate that the command execution is done and changes the `CommandStatus`
     pub(crate) fn done(&self, status: CommandStatus) {
+        #[cfg(cached_verif)]
+        crate::cache::verif::point("ack.done.1");
         *self.status.lock() = status;
+        #[cfg(cached_verif)]
+        crate::cache::verif::point("ack.done.2");
         self.done.store(true, Ordering::Release);
+        #[cfg(cached_verif)]
+        crate::cache::verif::point("ack.done.3");
         if let Some(waker) = &self.waker_state.lock().waker {
             waker.wake_by_ref();
         }
@@ -111,7 +117,11 @@ impl Future for &CommandAcknowledgementHandle {
     type Output = CommandStatus;
 
     fn poll(self: Pin<&mut Self>, context: &mut Context<'_>) -> Poll<Self::Output> {
+        #[cfg(cached_verif)]
+        crate::cache::verif::point("ack.poll.lock");
         let mut guard = self.waker_state.lock();
+        #[cfg(cached_verif)]
+        crate::cache::verif::point("ack.poll.register");
         match guard.waker.as_ref() {
             Some(waker) => {
                 if !waker.will_wake(context.waker()) {
@@ -122,9 +132,15 @@ impl Future for &CommandAcknowledgementHandle {
                 guard.waker = Some(context.waker().clone());
             }
         }
+        #[cfg(cached_verif)]
+        crate::cache::verif::point("ack.poll.flag");
         if self.done.load(Ordering::Acquire) {
+            #[cfg(cached_verif)]
+            crate::cache::verif::point("ack.poll.ready");
             return Poll::Ready(*self.status.lock());
         }
+        #[cfg(cached_verif)]
+        crate::cache::verif::point("ack.poll.pending");
         Poll::Pending
     }
 }
@@ -161,4 +177,14 @@ mod tests {
         let response = acknowledgement.handle().await;
         assert_eq!(CommandStatus::Rejected(RejectionReason::KeyAlreadyExists), response);
     }
+}
+
+/// Direct access to a fresh acknowledgement for the verification harness.
+#[cfg(cached_verif)]
+pub struct VerifAck(pub Arc<CommandAcknowledgement>);
+
+#[cfg(cached_verif)]
+impl VerifAck {
+    pub fn new() -> Self { VerifAck(CommandAcknowledgement::new()) }
+    pub fn done(&self, status: CommandStatus) { self.0.done(status) }
 }
